@@ -38,7 +38,7 @@ REDS = ["sum", "prod", "mean", "var", "std", "min", "max", "ptp", "all", "any", 
 
 
 def budget(tier):
-    return {"quick": dict(examples=400, shards=1), "thorough": dict(examples=1500, shards=16)}[tier]
+    return {"quick": dict(examples=400, shards=1), "thorough": dict(examples=5000, shards=16)}[tier]
 
 
 # ----------------------------------------------------------------------------------------------
